@@ -23,8 +23,7 @@
    the link is dropped, Create Connection checks for an existing connection and ends in Page
    Timeout when nobody owns the address, Disconnect of an unknown handle is refused).
 
-   Abstractions (stated in docs/C06.md): connection parameters, PHYs, RSSI, SCO, CIS,
-   encryption, feature exchange, role switch and HCI command-complete events of
+   Abstractions (stated in docs/C06.md): connection parameters, PHYs, RSSI, encryption, feature exchange, role switch and HCI command-complete events of
    configuration commands are not modelled; an ACL label is one complete PDU
    (fragmentation and reassembly belong to property C05). *)
 From Coq Require Import ZArith List Bool.
@@ -65,37 +64,52 @@ Record ctrl := mkCtrl {
   c_pending : option (Z * bool);   (* pending_le_connection: peer address, own address public? *)
   c_le : list conn;         (* le_connections, insertion order, keyed by k_peer *)
   c_cl : list conn;         (* classic_connections *)
-  c_lmp : list (Z * bool)   (* classic_pending_commands[peer][HOST_CONNECTION_REQ]: future done? *)
+  c_lmp : list (Z * bool);  (* classic_pending_commands[peer][HOST_CONNECTION_REQ]: future done? *)
+  c_sco : list conn;        (* sco_links, keyed by k_peer; k_central = link type is eSCO, k_self unused (0);
+                               k_handle = 0 while the link is being set up *)
+  c_cis : list (Z * Z * Z); (* central_cis_links: (handle, cig id, cis id), insertion order, keyed by handle;
+                               peripheral_cis_links are not modelled (always empty) *)
+  c_lmp_sco : list (Z * bool) (* classic_pending_commands[peer][ESCO_LINK_REQ]: future done? *)
 }.
 
 Definition new_ctrl (pub rnd : Z) (extrep : bool) : ctrl :=
-  mkCtrl pub rnd true true [] [] false [] false false extrep None [] [] [].
+  mkCtrl pub rnd true true [] [] false [] false false extrep None [] [] [] [] [] [].
 
 (* field updates *)
 Definition set_random (c : ctrl) (a : Z) : ctrl :=
   mkCtrl (c_public c) a (c_leg_pub c) (c_leg_advind c) (c_leg_data c) (c_leg_srsp c) (c_leg_enabled c)
-         (c_sets c) (c_scan c) (c_active c) (c_extrep c) (c_pending c) (c_le c) (c_cl c) (c_lmp c).
+         (c_sets c) (c_scan c) (c_active c) (c_extrep c) (c_pending c) (c_le c) (c_cl c) (c_lmp c) (c_sco c) (c_cis c) (c_lmp_sco c).
 Definition set_leg (c : ctrl) (pub advind : bool) (data srsp : bytes) (en : bool) : ctrl :=
   mkCtrl (c_public c) (c_random c) pub advind data srsp en
-         (c_sets c) (c_scan c) (c_active c) (c_extrep c) (c_pending c) (c_le c) (c_cl c) (c_lmp c).
+         (c_sets c) (c_scan c) (c_active c) (c_extrep c) (c_pending c) (c_le c) (c_cl c) (c_lmp c) (c_sco c) (c_cis c) (c_lmp_sco c).
 Definition set_sets (c : ctrl) (sets : list advset) : ctrl :=
   mkCtrl (c_public c) (c_random c) (c_leg_pub c) (c_leg_advind c) (c_leg_data c) (c_leg_srsp c) (c_leg_enabled c)
-         sets (c_scan c) (c_active c) (c_extrep c) (c_pending c) (c_le c) (c_cl c) (c_lmp c).
+         sets (c_scan c) (c_active c) (c_extrep c) (c_pending c) (c_le c) (c_cl c) (c_lmp c) (c_sco c) (c_cis c) (c_lmp_sco c).
 Definition set_scan (c : ctrl) (scan active : bool) : ctrl :=
   mkCtrl (c_public c) (c_random c) (c_leg_pub c) (c_leg_advind c) (c_leg_data c) (c_leg_srsp c) (c_leg_enabled c)
-         (c_sets c) scan active (c_extrep c) (c_pending c) (c_le c) (c_cl c) (c_lmp c).
+         (c_sets c) scan active (c_extrep c) (c_pending c) (c_le c) (c_cl c) (c_lmp c) (c_sco c) (c_cis c) (c_lmp_sco c).
 Definition set_pending (c : ctrl) (p : option (Z * bool)) : ctrl :=
   mkCtrl (c_public c) (c_random c) (c_leg_pub c) (c_leg_advind c) (c_leg_data c) (c_leg_srsp c) (c_leg_enabled c)
-         (c_sets c) (c_scan c) (c_active c) (c_extrep c) p (c_le c) (c_cl c) (c_lmp c).
+         (c_sets c) (c_scan c) (c_active c) (c_extrep c) p (c_le c) (c_cl c) (c_lmp c) (c_sco c) (c_cis c) (c_lmp_sco c).
 Definition set_le (c : ctrl) (le : list conn) : ctrl :=
   mkCtrl (c_public c) (c_random c) (c_leg_pub c) (c_leg_advind c) (c_leg_data c) (c_leg_srsp c) (c_leg_enabled c)
-         (c_sets c) (c_scan c) (c_active c) (c_extrep c) (c_pending c) le (c_cl c) (c_lmp c).
+         (c_sets c) (c_scan c) (c_active c) (c_extrep c) (c_pending c) le (c_cl c) (c_lmp c) (c_sco c) (c_cis c) (c_lmp_sco c).
 Definition set_cl (c : ctrl) (cl : list conn) : ctrl :=
   mkCtrl (c_public c) (c_random c) (c_leg_pub c) (c_leg_advind c) (c_leg_data c) (c_leg_srsp c) (c_leg_enabled c)
-         (c_sets c) (c_scan c) (c_active c) (c_extrep c) (c_pending c) (c_le c) cl (c_lmp c).
+         (c_sets c) (c_scan c) (c_active c) (c_extrep c) (c_pending c) (c_le c) cl (c_lmp c) (c_sco c) (c_cis c) (c_lmp_sco c).
 Definition set_lmp (c : ctrl) (l : list (Z * bool)) : ctrl :=
   mkCtrl (c_public c) (c_random c) (c_leg_pub c) (c_leg_advind c) (c_leg_data c) (c_leg_srsp c) (c_leg_enabled c)
-         (c_sets c) (c_scan c) (c_active c) (c_extrep c) (c_pending c) (c_le c) (c_cl c) l.
+         (c_sets c) (c_scan c) (c_active c) (c_extrep c) (c_pending c) (c_le c) (c_cl c) l (c_sco c) (c_cis c) (c_lmp_sco c).
+
+Definition set_sco (c : ctrl) (t : list conn) : ctrl :=
+  mkCtrl (c_public c) (c_random c) (c_leg_pub c) (c_leg_advind c) (c_leg_data c) (c_leg_srsp c) (c_leg_enabled c)
+         (c_sets c) (c_scan c) (c_active c) (c_extrep c) (c_pending c) (c_le c) (c_cl c) (c_lmp c) t (c_cis c) (c_lmp_sco c).
+Definition set_cis (c : ctrl) (t : list (Z * Z * Z)) : ctrl :=
+  mkCtrl (c_public c) (c_random c) (c_leg_pub c) (c_leg_advind c) (c_leg_data c) (c_leg_srsp c) (c_leg_enabled c)
+         (c_sets c) (c_scan c) (c_active c) (c_extrep c) (c_pending c) (c_le c) (c_cl c) (c_lmp c) (c_sco c) t (c_lmp_sco c).
+Definition set_lmp_sco (c : ctrl) (l : list (Z * bool)) : ctrl :=
+  mkCtrl (c_public c) (c_random c) (c_leg_pub c) (c_leg_advind c) (c_leg_data c) (c_leg_srsp c) (c_leg_enabled c)
+         (c_sets c) (c_scan c) (c_active c) (c_extrep c) (c_pending c) (c_le c) (c_cl c) (c_lmp c) (c_sco c) (c_cis c) l.
 
 (* ------------------------------------------------------------------ Python dict semantics *)
 Fixpoint tbl_get (t : list conn) (peer : Z) : option conn :=
@@ -157,8 +171,8 @@ Definition zmem (x : Z) (l : list Z) : bool := existsb (Z.eqb x) l.
 
 (* ------------------------------------------------------------------ handle allocation *)
 (* Controller.allocate_connection_handle: the smallest handle in 1..0xEFF that no
-   LE / classic connection uses (SCO and CIS links are not modelled).  None = the
-   generator is exhausted (StopIteration in the code). *)
+   LE / classic connection, SCO link or CIS link uses.  None = the generator is exhausted
+   (StopIteration in the code). *)
 Definition max_handle : Z := 3839.
 
 Fixpoint first_free (fuel : nat) (h : Z) (used : list Z) : option Z :=
@@ -167,7 +181,12 @@ Fixpoint first_free (fuel : nat) (h : Z) (used : list Z) : option Z :=
   | S f => if zmem h used then first_free f (h + 1) used else Some h
   end.
 
-Definition handles (c : ctrl) : list Z := map k_handle (c_le c) ++ map k_handle (c_cl c).
+Definition cis_handle (x : Z * Z * Z) : Z := fst (fst x).
+
+(* every table the code allocates handles for: le_connections, classic_connections, sco_links,
+   central_cis_links (peripheral_cis_links is not modelled and always empty) *)
+Definition handles (c : ctrl) : list Z :=
+  map k_handle (c_le c) ++ map k_handle (c_cl c) ++ map k_handle (c_sco c) ++ map cis_handle (c_cis c).
 
 Definition alloc (c : ctrl) : option Z := first_free (Z.to_nat max_handle) 1 (handles c).
 
@@ -210,7 +229,10 @@ Inductive msg :=
 | MAcl (src : Z) (le : bool) (data : bytes)(* send_acl_data *)
 | MLmpConnReq (sender : Z)                 (* lmp.LmpHostConnectionReq *)
 | MLmpAccepted (sender : Z)                (* lmp.LmpAccepted(LMP_HOST_CONNECTION_REQ) *)
-| MLmpDetach (sender reason : Z).          (* lmp.LmpDetach *)
+| MLmpDetach (sender reason : Z)           (* lmp.LmpDetach *)
+| MLmpEscoReq (sender : Z)                 (* lmp.LmpEscoLinkReq *)
+| MLmpAcceptedEsco (sender : Z)            (* lmp.LmpAcceptedExt(LMP_ESCO_LINK_REQ) *)
+| MLmpRemoveSco (sender reason : Z).       (* lmp.LmpRemoveScoLinkReq / LmpRemoveEscoLinkReq *)
 
 Definition packet := (nat * nat * msg)%type.     (* source, destination *)
 
@@ -225,6 +247,9 @@ Inductive ev :=
 | EClReq (peer : Z)
 | EClConn (handle peer : Z)
 | EClFail (status peer : Z)                (* Connection Complete with an error status *)
+| EScoReq (peer : Z)                       (* Connection Request, link type eSCO *)
+| EScoConn (handle peer : Z)               (* Synchronous Connection Complete, success *)
+| ECig (handles : list Z)                  (* return parameters of LE Set CIG Parameters *)
 | EError (what : Z).                       (* exception escapes the callback *)
 
 Inductive label :=
@@ -249,6 +274,10 @@ Inductive label :=
 | LDisconnect (i : nat) (h reason : Z)
 | LClConnect (i : nat) (peer : Z)          (* Create Connection *)
 | LClAccept (i : nat) (peer : Z)           (* Accept Connection Request, role = peripheral *)
+| LScoSetup (i : nat) (h : Z)              (* Enhanced Setup Synchronous Connection on ACL handle h *)
+| LScoAccept (i : nat) (peer : Z)          (* Enhanced Accept Synchronous Connection Request *)
+| LSetCig (i : nat) (cig : Z) (cis : list Z)  (* LE Set CIG Parameters *)
+| LRemoveCig (i : nat) (cig : Z)           (* LE Remove CIG *)
 | LDeliver (k : nat).                      (* deliver the k-th message in flight *)
 
 Record state := mkState { st_cs : list ctrl; st_net : list packet }.
@@ -384,6 +413,32 @@ Definition on_lmp_detach (c : ctrl) (sender : Z) : result :=
   | Some k => (set_cl c (tbl_del (c_cl c) sender), [EDisc (k_handle k) 19], [])
   end.
 
+(* Controller.on_classic_sco_connection_complete(peer, SUCCESS, ESCO) *)
+Definition sco_complete (c : ctrl) (peer : Z) : ctrl * list ev :=
+  match alloc c with
+  | None => (c, [EError 1])
+  | Some h => (set_sco c (tbl_set (c_sco c) (mkConn peer 0 h true)), [EScoConn h peer])
+  end.
+
+Definition on_lmp_esco_req (c : ctrl) (sender : Z) : result :=
+  (set_sco c (tbl_set (c_sco c) (mkConn sender 0 0 true)), [EScoReq sender], []).
+
+Definition on_lmp_accepted_esco (c : ctrl) (sender : Z) : result :=
+  match lmp_get (c_lmp_sco c) sender with
+  | None => (c, [], [])
+  | Some true => (c, [EError 2], [])
+  | Some false =>
+      let '(c', evs) := sco_complete (set_lmp_sco c (lmp_set (c_lmp_sco c) sender true)) sender in
+      (c', evs, [])
+  end.
+
+(* Controller.on_classic_sco_disconnected *)
+Definition on_lmp_remove_sco (c : ctrl) (sender reason : Z) : result :=
+  match tbl_get (c_sco c) sender with
+  | None => (c, [], [])
+  | Some k => (set_sco c (tbl_del (c_sco c) sender), [EDisc (k_handle k) reason], [])
+  end.
+
 Definition on_message (n j : nat) (c : ctrl) (m : msg) : result :=
   match m with
   | MAdv adv data srsp => on_adv n j c adv data srsp
@@ -393,6 +448,9 @@ Definition on_message (n j : nat) (c : ctrl) (m : msg) : result :=
   | MLmpConnReq sender => on_lmp_conn_req c sender
   | MLmpAccepted sender => on_lmp_accepted c sender
   | MLmpDetach sender _ => on_lmp_detach c sender
+  | MLmpEscoReq sender => on_lmp_esco_req c sender
+  | MLmpAcceptedEsco sender => on_lmp_accepted_esco c sender
+  | MLmpRemoveSco sender reason => on_lmp_remove_sco c sender reason
   end.
 
 (* LegacyAdvertiser.send_advertising_data *)
@@ -454,9 +512,10 @@ Definition send_acl (cs : list ctrl) (i : nat) (c : ctrl) (h : Z) (d : bytes) : 
 (* Controller.on_hci_disconnect_command.  LocalLink.send_ll_control_pdu / send_lmp_packet drop
    the PDU when no controller is found for the peer; the local side is disconnected anyway. *)
 Definition disconnect (cs : list ctrl) (i : nat) (c : ctrl) (h reason : Z) : result :=
-  match conn_by_handle c h with
-  | None => (c, [EStatus 2], [])                        (* UNKNOWN_CONNECTION_IDENTIFIER: nothing to disconnect *)
-  | Some _ =>
+  match conn_by_handle c h, by_handle (c_sco c) h with
+  | None, None => (c, [EStatus 2], [])                  (* UNKNOWN_CONNECTION_IDENTIFIER: nothing to disconnect
+                                                           (a CIS that was never created has no ACL connection) *)
+  | _, _ =>
       match by_handle (c_cl c) h with
       | Some k =>
           (set_cl c (tbl_del (c_cl c) (k_peer k)), [EStatus 0; EDisc (k_handle k) reason],
@@ -472,7 +531,16 @@ Definition disconnect (cs : list ctrl) (i : nat) (c : ctrl) (h reason : Z) : res
                | None => []
                | Some j => [(i, j, MTerm (k_self k) reason)]
                end)
-          | None => (c, [EStatus 0], [])
+          | None =>
+              match by_handle (c_sco c) h with
+              | Some k =>
+                  (set_sco c (tbl_del (c_sco c) (k_peer k)), [EStatus 0; EDisc (k_handle k) reason],
+                   match find_classic cs (k_peer k) with
+                   | None => []
+                   | Some j => [(i, j, MLmpRemoveSco (c_public c) reason)]
+                   end)
+              | None => (c, [EStatus 0], [])
+              end
           end
       end
   end.
@@ -506,6 +574,51 @@ Definition cl_accept (cs : list ctrl) (i : nat) (c : ctrl) (peer : Z) : result :
        | Some j => [(i, j, MLmpAccepted (c_public c))]
        end)
   end.
+
+(* Controller.on_hci_enhanced_setup_synchronous_connection_command *)
+Definition sco_setup (cs : list ctrl) (i : nat) (c : ctrl) (h : Z) : result :=
+  match conn_by_handle c h with
+  | None => (c, [EStatus 2], [])
+  | Some (_, k) =>
+      (set_lmp_sco c (lmp_set (c_lmp_sco c) (k_peer k) false), [EStatus 0],
+       match find_classic cs (k_peer k) with
+       | None => []
+       | Some j => [(i, j, MLmpEscoReq (c_public c))]
+       end)
+  end.
+
+(* Controller.on_hci_enhanced_accept_synchronous_connection_request_command *)
+Definition sco_accept (cs : list ctrl) (i : nat) (c : ctrl) (peer : Z) : result :=
+  match tbl_get (c_cl c) peer with
+  | None => (c, [EStatus 2], [])
+  | Some _ =>
+      let '(c', evs) := sco_complete c peer in
+      (c', EStatus 0 :: evs,
+       match find_classic cs peer with
+       | None => []
+       | Some j => [(i, j, MLmpAcceptedEsco (c_public c))]
+       end)
+  end.
+
+(* Controller.on_hci_le_set_cig_parameters_command: the CIG is replaced, one handle is
+   allocated per CIS, each against the tables as they are at that moment *)
+Fixpoint add_cis (c : ctrl) (cig : Z) (cis : list Z) : ctrl * list Z * bool :=
+  match cis with
+  | [] => (c, [], true)
+  | x :: cis' =>
+      match alloc c with
+      | None => (c, [], false)
+      | Some h =>
+          let '(c', hs, ok) := add_cis (set_cis c (c_cis c ++ [(h, cig, x)])) cig cis' in
+          (c', h :: hs, ok)
+      end
+  end.
+
+Definition not_cig (cig : Z) (x : Z * Z * Z) : bool := negb (snd (fst x) =? cig).
+
+Definition set_cig (c : ctrl) (cig : Z) (cis : list Z) : result :=
+  let '(c', hs, ok) := add_cis (set_cis c (filter (not_cig cig) (c_cis c))) cig cis in
+  (c', if ok then [ECig hs] else [EError 1], []).
 
 Definition local (cs : list ctrl) (n i : nat) (c : ctrl) (l : label) : result :=
   match l with
@@ -552,6 +665,10 @@ Definition local (cs : list ctrl) (n i : nat) (c : ctrl) (l : label) : result :=
   | LDisconnect _ h r => disconnect cs i c h r
   | LClConnect _ peer => cl_connect cs i c peer
   | LClAccept _ peer => cl_accept cs i c peer
+  | LScoSetup _ h => sco_setup cs i c h
+  | LScoAccept _ peer => sco_accept cs i c peer
+  | LSetCig _ cig cis => set_cig c cig cis
+  | LRemoveCig _ cig => (set_cis c (filter (not_cig cig) (c_cis c)), [], [])
   | LDeliver _ => (c, [], [])
   end.
 
@@ -560,7 +677,8 @@ Definition label_ctrl (l : label) : option nat :=
   | LSetRandom i _ | LAdvParams i _ _ | LAdvData i _ | LScanRsp i _ | LAdvEnable i _
   | LExtRandom i _ _ | LExtParams i _ _ | LExtData i _ _ _ | LExtSrsp i _ _ _ | LExtEnable i _ _
   | LExtRemove i _ | LExtClear i | LTick i | LExtTick i _ | LScanParams i _ | LScanEnable i _
-  | LConnect i _ _ | LAcl i _ _ | LDisconnect i _ _ | LClConnect i _ | LClAccept i _ => Some i
+  | LConnect i _ _ | LAcl i _ _ | LDisconnect i _ _ | LClConnect i _ | LClAccept i _
+  | LScoSetup i _ | LScoAccept i _ | LSetCig i _ _ | LRemoveCig i _ => Some i
   | LDeliver _ => None
   end.
 
@@ -628,7 +746,8 @@ Definition init (cfg : list (Z * Z * bool)) : state :=
 Definition conn_obs (k : conn) : Z * Z * Z * bool := (k_peer k, k_self k, k_handle k, k_central k).
 Definition ctrl_obs (c : ctrl) :=
   (map conn_obs (c_le c), map conn_obs (c_cl c), c_pending c, c_leg_enabled c,
-   map (fun s => (a_handle s, a_enabled s)) (c_sets c), (c_scan c, c_active c)).
+   map (fun s => (a_handle s, a_enabled s)) (c_sets c), (c_scan c, c_active c),
+   (map (fun k => (k_peer k, k_handle k)) (c_sco c), c_cis c)).
 Definition state_obs (s : state) := (map ctrl_obs (st_cs s), st_net s).
 
 (* ------------------------------------------------------------------ hypotheses of the theorems (boolean) *)
